@@ -290,7 +290,13 @@ func (c *FailoverController) ForceFailover(reason string) error {
 	c.logger.Warn("Forcing failover",
 		zap.String("reason", reason),
 	)
-	return c.initiateFailover(reason)
+	if err := c.initiateFailover(reason); err != nil {
+		return err
+	}
+	// initiateFailover only marks the transition as in progress; carry it out,
+	// otherwise the controller stays in-progress forever with nothing pending
+	c.executeFailover(reason)
+	return nil
 }
 
 // ForceFailback forces an immediate failback (for manual intervention).
@@ -410,7 +416,9 @@ func (c *FailoverController) initiateFailover(reason string) error {
 	}
 
 	c.state = FailoverStateInProgress
-	atomic.AddUint64(&c.failoversInitiated, 1)
+	if c.failoverTimer != nil {
+		c.failoverTimer.Stop()
+	}
 
 	c.notifyHandlers(FailoverEvent{
 		Type:         FailoverEventInitiated,
